@@ -88,7 +88,7 @@ func boundsRuleK(p *Program, r *Report, rule string, files []string, confirmed m
 				r.OK(rule, name, construct, pos, "bound guarded on every path ("+v.Why+")")
 				continue
 			}
-			key := rule + "|" + name + "|" + construct
+			key := "R14.1|" + name + "|" + construct // the table is shared by R14.1 and R03.1 (same sites)
 			if why, ok := confirmed[key]; ok {
 				r.Confirmed(rule, name, construct, pos, why)
 				continue
